@@ -1,7 +1,7 @@
 (* C12 — --clean removes exactly the declared outputs and the cache, never the project.
    Statements + `exact` + Print Assumptions only.  Paths are absolute cleaned paths as component lists; the file
    system is the list of existing paths; os.RemoveAll(t) removes t and everything below it. *)
-From Spok Require Import Base Paths Glob Effects EffectsProofs.
+From Spok Require Import Base Paths Glob Effects EffectsProofs Lexer Parser Vars Load LoadProofs.
 
 (* exactly: a path survives iff it existed and is not at or below an unguarded target, the targets being the declared
    literal outputs (joined to the spokfile's directory), the values of named outputs (made absolute), the files
@@ -33,6 +33,14 @@ Print Assumptions C12_user_clean.
 (* non-vacuity: /h/proj with EMPTY := "" and UP := ".." as named outputs, a literal "bin" and a glob match:
    the project survives, bin and the match and .spok go *)
 Definition s (l : list N) := l.
+(* what --clean starts from: a task's outputs sorted into names of variables, file paths below the root and patterns (task.New) *)
+Theorem C12_outputs_classified : forall root vs doc name deps outs cmds t,
+  load_task root vs doc name deps outs cmds = Some t ->
+  lt_named t = idents_of outs /\ lt_fileouts t = files_of root outs /\ lt_globouts t = globs_of outs /\
+  lt_taskdeps t = idents_of deps /\ lt_filedeps t = files_of root deps /\ lt_globdeps t = globs_of deps.
+Proof. exact outputs_classified. Qed.
+Print Assumptions C12_outputs_classified.
+
 Definition P := [[104]; [112]].                                   (* /h/p *)
 Definition fs0 := [[[104]]; P; P ++ [spokfile_name]; P ++ [[98]]; P ++ [[98]; [120]]; P ++ [[107]]; P ++ [cache_dir_name]; P ++ [[103]; [99]]].
 Example C12_nonvacuous :
